@@ -29,9 +29,10 @@ func main() {
 	for _, spec := range []struct {
 		iface string
 		impl  types.Type
-	}{{"Point", G}, {"Curve", Grp}} {
+		args  []types.Type
+	}{{"Point", G, []types.Type{G, F, F}}, {"Curve", Grp, []types.Type{G, F, F}}, {"PairingFriendlyPoint", G, []types.Type{G, F, G, F, F, F}}, {"PairingFriendlyCurve", Grp, []types.Type{G, F, G, F, F, F}}, {"PairingFriendlyFamily", Grp, []types.Type{G, F, G, F, F, F}}} {
 		gen := cur.Scope().Lookup(spec.iface).Type()
-		inst, err := types.Instantiate(types.NewContext(), gen, []types.Type{G, F, F}, false)
+		inst, err := types.Instantiate(types.NewContext(), gen, spec.args, false)
 		if err != nil {
 			fmt.Println("instantiate:", err)
 			os.Exit(1)
